@@ -14,6 +14,8 @@
      chk_neg    (N12b)  `if numFacts < 0` in readHeader
      lazy_alloc (N20)   rows are appended while column 0 is read instead of
                         make([][]ast.BaseTerm, numFacts) up front.
+     zero_counted (F12, another builder's fix of ReadInto): a predicate of arity 0 is
+                        added only `if predNumFacts[i] > 0` (originally: always).
    No proofs in this file. *)
 From Coq Require Import List ZArith Bool Arith.
 Import ListNotations.
@@ -30,11 +32,11 @@ Record lib := {
   term : bytes -> tres                            (* decoding of one non-empty body line *)
 }.
 
-Record ver := { chk_empty : bool; chk_neg : bool; lazy_alloc : bool }.
-Definition fixed : ver := {| chk_empty := true; chk_neg := true; lazy_alloc := true |}.
-Definition original : ver := {| chk_empty := false; chk_neg := false; lazy_alloc := false |}.
+Record ver := { chk_empty : bool; chk_neg : bool; lazy_alloc : bool; zero_counted : bool }.
+Definition fixed : ver := {| chk_empty := true; chk_neg := true; lazy_alloc := true; zero_counted := true |}.
+Definition original : ver := {| chk_empty := false; chk_neg := false; lazy_alloc := false; zero_counted := false |}.
 (* N12b applied, N20 not *)
-Definition only_n12 : ver := {| chk_empty := true; chk_neg := true; lazy_alloc := false |}.
+Definition only_n12 : ver := {| chk_empty := true; chk_neg := true; lazy_alloc := false; zero_counted := true |}.
 
 (* outcome of ReadInto: 0 = nil; 1..6 error class (1 ErrCouldNotRead, 2 ErrTooManyPreds,
    3 ErrWrongArgument, 4 ErrUnsupportedArity, 5 ErrTooManyFacts, 6 parse error of a line) *)
@@ -158,7 +160,8 @@ Fixpoint read_preds (V : ver) (L : lib) (ps : list pred) (ls : list bytes) (adde
   match ps with
   | [] => (added, ROk tt)
   | (name, ar, nf) :: ps' =>
-    if ar =? 0 then read_preds V L ps' ls (added ++ [(name, 0, [])])
+    if ar =? 0 then
+      read_preds V L ps' ls (if zero_counted V && negb (0 <? nf) then added else added ++ [(name, 0, [])])
     else match read_pred V L ls ar nf with
          | ROk (rows, ls') => read_preds V L ps' ls' (added ++ map (fun r => (name, ar, row_args r)) rows)
          | RErr e => (added, RErr e)
